@@ -1077,7 +1077,7 @@ class Interp:
             return ls.run_for(self, st, fr, it)
         if getattr(type(it), "_pyvc_symlen", False) and not getattr(it, "concrete_len", lambda: False)():
             callers = " <- ".join(f.qual.split(":")[-1] for f in reversed(self.frame_stack[-4:-1]))
-            raise Unsupported(f"loop over a symbolic-length collection without an invariant: {fr.qual} loop #{ordinal}"
+            raise Unsupported(f"loop over a symbolic-length collection ({type(it).__name__}) without an invariant: {fr.qual} loop #{ordinal}"
                               + (f" (called from {callers})" if callers else ""))
         broke = False
         for x in self.iterate(it):
@@ -1330,6 +1330,9 @@ class Interp:
             if isinstance(seq, (tuple, list)):
                 from .symseq import RepSeq
 
+                for v in (1, 0):  # a count the path condition pins to 0 or 1: an ordinary sequence
+                    if self.ctx.entails(sym.tz(k) == v):
+                        return seq * v
                 return RepSeq.make(self, seq, k)
         if op is operator.mod and isinstance(a, str):
             try:
